@@ -1374,3 +1374,34 @@ Proof.
   split; [reflexivity|]. split; [reflexivity|]. split; [exact Hst|]. split; [exact Hsig|].
   vm_compute. reflexivity.
 Qed.
+
+(* ------------------------------------------------------------------ the client's own check (repaired) *)
+(* a signature the repaired client check accepts is exactly what OZ recover needs: for
+   client-verified signatures [ecdsa_recovers] is a theorem, not a hypothesis *)
+Lemma client_accepts_recovers ecrecover addr digest sig :
+  client_accepts ecrecover addr digest sig = true -> addr <> 0 ->
+  oz_recover ecrecover digest sig = Some addr.
+Proof.
+  unfold client_accepts. intros H Ha.
+  repeat (apply andb_true_iff in H as [H ?]).
+  apply oz_recover_ok; try lia.
+Qed.
+Lemma client_accepted_ecdsa ecrecover :
+  ecdsa_recovers ecrecover (fun addr digest sig => client_accepts ecrecover addr digest sig = true /\ addr <> 0).
+Proof.
+  intros addr digest sig [H Ha] _. unfold client_accepts in H.
+  repeat (apply andb_true_iff in H as [H ?]).
+  split; [lia|]. split; [lia|]. split; [lia | exact Ha].
+Qed.
+(* the defect that was repaired: with the V byte ignored, the client accepted signatures that
+   OZ recover refuses (V = 29 here; the driver's corpus has the witnesses against the real code) *)
+Example before_fix_accepted_but_rejected :
+  let digest := toy_keccak [1; 2; 3] in
+  let sig := firstn 64 (toy_sign 1090 [1; 2; 3]) ++ [29] in
+  let digest' := toy_keccak (client_eth_preimage [1; 2; 3]) in
+  client_accepts_before_fix toy_ecrecover 1090 digest' sig = true
+  /\ client_accepts toy_ecrecover 1090 digest' sig = false
+  /\ oz_recover toy_ecrecover digest' sig = None
+  /\ client_accepts toy_ecrecover 1090 digest' (toy_sign 1090 [1; 2; 3]) = true.
+Proof. vm_compute. repeat split. Qed.
+
